@@ -1,5 +1,6 @@
 CONSTANTS
   MaxFeatures = 2
+  PairPaths <- PairPathsCore
   Plan <- PlanThorough
   Dev_StopDropsDynamic = TRUE
   Dev_ExcRebuiltFromStr = TRUE
